@@ -119,7 +119,12 @@ class Ocp(Stage):
             self._transcribe_recurse(phase=1,**kwargs)
             self._original._set_transcribed(True)
 
-            self._transcribe_recurse(phase=2,placeholders=self.placeholders_transcribed,**kwargs)
+            try:
+                self._transcribe_recurse(phase=2,placeholders=self.placeholders_transcribed,**kwargs)
+            except:
+                # e.g. a guess that does not fit: the transcription is incomplete and must not be reused by the next query
+                self._original._set_transcribed(False)
+                raise
     
     def _untranscribe(self,**kwargs):
         if self.is_transcribed:
